@@ -7,10 +7,10 @@ CONSTANTS
   ConsumerSet = {"c1", "c2"}
   Coords = {"A", "X"}
   OpKinds = {"CreateStream", "DeleteStream", "CreateGroup", "JoinGroup", "LeaveGroup", "ChangeCoordinator"}
-  MaxOps = 5
+  MaxOps = 4
   MaxSnaps = 1
   MaxRestarts = 1
-INVARIANTS NoTombLive GroupsFine EpochsFine
-PROPERTIES A_RS_GroupMembers A_NoDataLoss A_NoResurrection A_NoApplyError
+INVARIANTS NoTombLive GroupsFine EpochsFine FlagsConsistent
+PROPERTIES A_RS_Streams A_RS_RoEff A_RS_GroupMembers A_NoDataLoss A_NoResurrection A_NoApplyError
 VIEW MCView
 CHECK_DEADLOCK FALSE
